@@ -685,11 +685,20 @@ class _MutableSetMixin:
         if it is self:
             self.clear()
         else:
+            # Decide for every element against our *original* contents,
+            # then apply: an element that occurs more than once in *it*
+            # must not be toggled more than once.
+            to_remove = []
+            to_add = []
             for value in it:
                 if value in self:
-                    self.discard(value)
+                    to_remove.append(value)
                 else:
-                    self.add(value)
+                    to_add.append(value)
+            for value in to_remove:
+                self.discard(value)
+            for value in to_add:
+                self.add(value)
         return self
 
 
